@@ -1,6 +1,6 @@
 (* Entry point of the extracted evaluator. *)
 From Coq Require Import String.
-From HS Require Import Lib.Base Run.Val Run.ServeRun.
+From HS Require Import Lib.Base Run.Val Run.ServeRun Run.ServeSpec.
 
 Definition E_SERVE := bs "serve"%string.
 
@@ -10,7 +10,13 @@ Definition run_case (engine : bytes) (v : val) : val :=
     | VL [inp; obs] =>
         match dec_sinput inp with
         | None => VL [finding K_BAD engine (VL []) (VL [])]
-        | Some i => VL (cmp_obs (model_obs i) obs)
+        | Some i =>
+            VL (finding K_TAG (tag_serve i) (VL []) (VL [])
+                :: cmp_obs (model_obs i) obs
+                ++ match dec_sobs obs with
+                   | None => []      (* a panic or malformed observation: the comparison above reports it *)
+                   | Some o => spec_c01 i o ++ spec_c02 i o ++ spec_c03 i (dec_range_hint (i_hints i)) o
+                   end)
         end
     | _ => VL [finding K_BAD engine (VL []) (VL [])]
     end
